@@ -894,6 +894,41 @@ def run_faults(payload: Tuple[Any, ...]) -> Dict[str, Any]:
                     elif out[2] != code:
                         rep.add("c_info_permanent_error_remapped")
     # ---- multi-page listings: a transient failure on ANY page request (not only the first) must be masked ----
+    # the GET succeeds and the connection breaks while the body is streaming (first k reads of the body fail): for
+    # the calls that read the whole object themselves this is a transient error like any other
+    from botocore.exceptions import IncompleteReadError
+
+    with Ctx() as ctx:
+        for case, method, call, targets, _r in CASES:
+            if case not in ("read_file", "read_json", "read_file_with_etag"):
+                continue
+            ctx.restore_s3(cfg, dict(C_STORE))
+            s3 = ctx.worlds[cfg].s3
+            want = call(ctx.S[cfg])
+            for k in range(1, budget + 1):
+                left = [k]
+
+                def bf(req: Any) -> Any:
+                    if left[0] > 0:
+                        left[0] -= 1
+                        return IncompleteReadError(actual_bytes=1, expected_bytes=2)
+                    return None
+
+                s3.body_fault = bf
+                try:
+                    try:
+                        got: Any = ("ok", call(ctx.S[cfg]))
+                    except Exception as e:  # noqa
+                        got = ("err", type(e).__name__)
+                finally:
+                    s3.body_fault = None
+                rep.add("fault_sequences")
+                rep.add("body_streaming_fault_sequences")
+                rep.nontrivial(("c", case, "body", k, got[0]))
+                if got != ("ok", want):
+                    rep.violation({"part": "c", "method": method, "request": "GET", "fault": "transient_while_streaming_the_body",
+                                   "problem": "not_masked" if got[0] == "err" else "result_changed"},
+                                  {"case": case, "config": cfg, "k": k, "outcome": repr(got)[:200]})
     with Ctx() as ctx:
         def listing(first_bad: int, nfail: int, code: str, status: int) -> Tuple[Any, int]:
             ENV.reset(0)
